@@ -569,7 +569,7 @@ impl<T: SharedInv> ArrayQueue<T> {
     pub uninterp spec fn cap(&self) -> nat;
     /// crossbeam ArrayQueue::new panics on a zero capacity; the new (empty) pool becomes THE pool of the World
     #[verifier::external_body]
-    pub fn verif_new(cap: usize, Tracked(w): Tracked<&mut World>) -> (r: Self)
+    pub fn verif_new(Tracked(w): Tracked<&mut World>, cap: usize) -> (r: Self)
         requires cap > 0,   //@[C02.open.pool_capacity_positive]
         ensures r.cap() == cap, final(w).pool_cap == cap, final(w).pool_free == 0,
                 final(w).data == old(w).data, final(w).hint == old(w).hint, final(w).ever == old(w).ever,
